@@ -99,3 +99,16 @@ Theorem below_minimum_cells_are_gone_after_the_iteration : forall (inp : inputs)
   In i (in_below inp) -> ~ In i (ids (i_pop (run_iteration documented_order inp s))).
 Proof. exact below_min_cells_gone. Qed.
 Print Assumptions below_minimum_cells_are_gone_after_the_iteration.
+
+(* WHAT THE REGENERATED CODE DOES: the two laws of C04 about the translated member functions themselves (at R; convertible with the
+   model, so the proofs are the model's): the target volume grows by rate times time step and never drops below the minimum volume;
+   the pressure is -K ln(V / V_target) capped at the maximum pressure. *)
+Theorem regenerated_target_volume_step : forall dt g minvol vt,
+  update_target_volume_gen NumR dt g minvol vt = Rmax (vt + dt * g) minvol.
+Proof. exact CellCycleProofs.target_volume_step. Qed.
+Print Assumptions regenerated_target_volume_step.
+
+Theorem regenerated_pressure_law : forall K pmax V vt,
+  update_pressure_gen NumR LibmR K pmax V vt = Rmin (- K * ln (V / vt)) pmax.
+Proof. exact CellCycleProofs.pressure_law. Qed.
+Print Assumptions regenerated_pressure_law.
